@@ -3,6 +3,7 @@ package props
 import (
 	"fmt"
 	"math/rand/v2"
+	"strings"
 
 	"github.com/ipld/go-ipld-prime/datamodel"
 
@@ -17,7 +18,7 @@ func init() {
 	register(&mon.Prop{
 		ID:    "C12",
 		Level: "exploration",
-		Rule: "seeded (selector, data) pairs: segment sequences of length 1..6 over {identity, .field, [\"quoted field\"] (incl. the empty name and names containing . [ ] space), index, slice, iterator} x {optional, not}; index/slice bounds from {0,+-1,+-2,+-len,+-(len+1),+-(2^53-1),absent}, reversed and empty ranges; data of every IPLD kind (maps with the selected keys present/absent, lists, byte strings, strings with multi-byte characters, scalars, null), segments chosen half of the time to fit the value reached so far. Plus the exhaustive slice table: lengths 0..6 x (start,end) in {-8..8,absent}^2 on lists, bytes and strings. " +
+		Rule: "seeded (selector, data) pairs: segment sequences of length 1..6 over {identity, .field, [\"quoted field\"] (incl. the empty name and names containing . [ ] space), index, slice, iterator} x {optional, not}; index/slice bounds from {0,+-1,+-2,+-len,+-(len+1),+-(2^53-1),absent}, reversed and empty ranges; data of every IPLD kind (maps with the selected keys present/absent, lists, byte strings, strings with multi-byte characters, scalars, null), segments chosen half of the time to fit the value reached so far. Plus the exhaustive kind x segment matrix (19 catalogue values incl. every empty collection x 40 segment shapes x 6 continuations, at the root and one level down) and the exhaustive slice table: lengths 0..6 x (start,end) in {-8..8,absent}^2 on lists, bytes and strings. " +
 			"Oracles: (i) Select == reference interpreter wherever the property pins the result (value deep-equal / no-value / error); (ii) model-free split compositionality: for every split prefix|suffix whose prefix selects v, Select(full,d) == Select(suffix,v), and a failing prefix makes the full selector fail. " +
 			"non-trivial = >=2 segments or a slice/negative index; distinct = (selector text, data).",
 		Assumptions: []string{
@@ -30,7 +31,7 @@ func init() {
 		MinEvals:    floor(100000, 3000000),
 		MinDistinct: floor(20000, 500000),
 		RequiredCells: func(string) []string {
-			cells := []string{"slice-table/list", "slice-table/bytes", "slice-table/string", "split/prefix-value", "split/prefix-error", "model/value", "model/no-value", "model/error", "model/unspecified", "field/empty-name", "iter/map-then-more", "iter/list-then-more"}
+			cells := []string{"matrix/kind-x-segment", "slice-table/list", "slice-table/bytes", "slice-table/string", "split/prefix-value", "split/prefix-error", "model/value", "model/no-value", "model/error", "model/unspecified", "field/empty-name", "iter/map-then-more", "iter/list-then-more"}
 			for _, k := range []string{"identity", "field", "index", "slice", "iter"} {
 				for _, d := range []string{"map", "list", "bytes", "string", "int", "null"} {
 					cells = append(cells, "seg/"+k+"/on="+d)
@@ -118,13 +119,14 @@ func c12Data(r *rand.Rand, depth int) ref.V {
 	case k == 7:
 		return ref.Bytes(gen.Bytes(r, r.IntN(6)))
 	case k == 8:
-		return ref.Str(gen.Pick(r, []string{"", "a", "héllo", "日本語テキスト", "abcdef", "ab"}))
+		return ref.Str(gen.Pick(r, []string{"", "a", "héllo", "日本語テキスト", "abcdef", "ab",
+			"漢字かな交じり文のとても長い文字列、三十二文字を超える長さにするための追加のテキストです。", "ßüöä-" + strings.Repeat("é", 70), strings.Repeat("a", 40)}))
 	case k == 9:
 		return ref.Int(gen.Int(r))
 	case k == 10:
 		return ref.Null()
 	default:
-		return gen.Pick(r, []ref.V{ref.Bool(true), ref.Float(1.5), ref.Int(0), ref.Str("x"), ref.List(), ref.Map()})
+		return gen.Pick(r, []ref.V{ref.Bool(true), ref.Float(1.5), ref.Int(0), ref.Str("x"), ref.List(), ref.Map(), ref.Map(), ref.List()})
 	}
 }
 
@@ -143,7 +145,7 @@ func vlen(v ref.V) int64 {
 }
 
 func c12Bound(r *rand.Rand, n int64) int64 {
-	return gen.Pick(r, []int64{0, 1, -1, 2, -2, n, -n, n + 1, -(n + 1), n - 1, gen.MaxSafe, -gen.MaxSafe, 3})
+	return gen.Pick(r, []int64{0, 1, -1, 2, -2, n, -n, n + 1, -(n + 1), n - 1, gen.MaxSafe, -gen.MaxSafe, 3, 2 * n, 3*n - 1, 40, 100})
 }
 
 // c12Seg draws a segment; fit=true biases it to make sense on cur.
@@ -443,6 +445,39 @@ func runC12(w *mon.W) {
 				w.Cover("slice-table/bytes")
 				c12Case(w, sg, ref.Str(string(rs)))
 				w.Cover("slice-table/string")
+			}
+		}
+	}
+	// exhaustive kind x segment matrix: every segment shape on a catalogue of values of every
+	// kind (incl. the empty collections / strings), alone and followed by one more segment
+	catalogue := []ref.V{
+		ref.Null(), ref.Bool(false), ref.Int(0), ref.Int(-7), ref.Float(2.5), ref.Str(""), ref.Str("a"), ref.Str("héllo wörld"),
+		ref.Str("漢字かな交じり文のとても長い文字列、三十二文字を超える長さにするための追加のテキストです。"),
+		ref.Bytes(nil), ref.Bytes([]byte{1}), ref.Bytes([]byte{1, 2, 3, 4}), ref.List(), ref.List(ref.Int(1)), ref.List(ref.Int(1), ref.Str("x"), ref.Map(), ref.List()),
+		ref.Map(), ref.Map(ref.E("a", ref.Int(1))), ref.Map(ref.E("a", ref.Map()), ref.E("", ref.List()), ref.E("b", ref.Str("s"))), ref.Link(ref.CID([]byte("l"))),
+	}
+	var shapes []ref.Seg
+	for _, opt := range []bool{false, true} {
+		shapes = append(shapes, ref.Seg{Kind: ref.SField, Name: "a", Opt: opt}, ref.Seg{Kind: ref.SField, Name: "", Quoted: true, Opt: opt}, ref.Seg{Kind: ref.SField, Name: "zz", Opt: opt}, ref.Seg{Kind: ref.SIter, Opt: opt})
+		for _, ix := range []int64{0, 1, -1, 3, -4, 100} {
+			shapes = append(shapes, ref.Seg{Kind: ref.SIndex, Idx: ix, Opt: opt})
+		}
+		for _, b := range [][2]*int64{{ref.I64(0), nil}, {nil, ref.I64(1)}, {ref.I64(0), ref.I64(1)}, {ref.I64(1), ref.I64(3)}, {ref.I64(-2), nil}, {nil, ref.I64(-1)}, {ref.I64(2), ref.I64(1)}, {ref.I64(0), ref.I64(100)}, {ref.I64(50), ref.I64(60)}} {
+			shapes = append(shapes, ref.Seg{Kind: ref.SSlice, Lo: b[0], Hi: b[1], Opt: opt})
+		}
+	}
+	tails := []ref.Sel{nil, {{Kind: ref.SField, Name: "a"}}, {{Kind: ref.SIndex, Idx: 0}}, {{Kind: ref.SIter}}, {{Kind: ref.SSlice, Lo: ref.I64(0), Hi: ref.I64(1)}}, {{Kind: ref.SField, Name: "a", Opt: true}}}
+	for _, v := range catalogue {
+		for _, sh := range shapes {
+			for _, tl := range tails {
+				idx++
+				if !w.Mine(idx) {
+					continue
+				}
+				c12Case(w, append(ref.Sel{sh}, tl...), v)
+				// and one level down
+				c12Case(w, append(ref.Sel{{Kind: ref.SField, Name: "k"}, sh}, tl...), ref.Map(ref.E("k", v)))
+				w.Cover("matrix/kind-x-segment")
 			}
 		}
 	}
